@@ -319,6 +319,11 @@ def _(prop, case, v):
     return case.get("kind") == "hist" and v.get("sig") == "key-condition-shape"
 
 
+@rule("KF-C16-unsupplied-placeholder")
+def _(prop, case, v):
+    return case.get("kind") == "hist" and v.get("sig") == "placeholder-unsupplied"
+
+
 @rule("KF-C09-unevaluated-expression")
 def _(prop, case, v):
     # the judge only raises this signature when no stored item reaches the malformed expression
